@@ -477,6 +477,11 @@ pub fn monogamous_circuit(t: &mut Tape, sig: &[OpSpec], nin: usize, nops: usize)
 /// write-once DAG: every node is written at most once (by one input position or one target
 /// position); fan-out and repeated reads allowed; every node that is read has been written.
 pub fn write_once_dag(t: &mut Tape, sig: &[OpSpec], nin: usize, nops: usize, nout: usize) -> Diagram {
+    write_once_dag_shaped(t, sig, nin, nops, nout, false)
+}
+
+/// `flat`: most operations read the inputs only, so that one layer holds most of the operations
+pub fn write_once_dag_shaped(t: &mut Tape, sig: &[OpSpec], nin: usize, nops: usize, nout: usize, flat: bool) -> Diagram {
     let mut d = Diagram::empty();
     let mut written: Vec<usize> = vec![];
     for _ in 0..nin {
@@ -493,7 +498,8 @@ pub fn write_once_dag(t: &mut Tape, sig: &[OpSpec], nin: usize, nops: usize, nou
             break;
         }
         let op = **t.pick(&cands);
-        let src: Vec<usize> = (0..op.ins).map(|_| *t.pick(&written)).collect();
+        let from_inputs = flat && nin > 0 && !t.chance(1, 16);
+        let src: Vec<usize> = (0..op.ins).map(|_| if from_inputs { written[t.choice(nin)] } else { *t.pick(&written) }).collect();
         let mut tgt = vec![];
         for _ in 0..op.outs {
             d.nodes.push(0);
